@@ -8,6 +8,7 @@ import re
 
 from ..absint import new_interp, NONE, const, is_const, fmt, HInst
 from ..astutil import unparse, dotted, call_name
+from ..names import N
 from ..common import AnalysisError, Report, read_text, repo_path
 from ..facts import facts
 from ..ptable import ptable, PARSER_FILE
@@ -188,7 +189,7 @@ def rule_header(rep: Report, rid="C05.header") -> None:
         rep.eq(rid, "a language header is recognised by the header pattern on the line", [(fmt(match, I), True)], [(fmt(c, I), p) for c, p in gs], **mr._kw(m, sn[2]))
         rep.eq(rid, "the Language token's text is the captured name", fmt(("call", ".group", (match, const(1)), ()), I), fmt(sn[1].get("text"), I) if sn[1].get("text") else None, **mr._kw(m, sn[2]))
     # order: sink (sets the column) precedes the dialect switch, which gets the token location
-    order = [n for n, _ in nf.iter_nodes(m.tree) if n[0] == "sink" or (n[0] == "call" and n[1].endswith("._change_dialect"))]
+    order = [n for n, _ in nf.iter_nodes(m.tree) if n[0] == "sink" or (n[0] == "call" and n[1].endswith("." + N.CHANGE_DIALECT))]
     ok = [n[0] for n in order] == ["sink", "call"]
     rep.ob(rid, "the header token is matched (column set) before the dialect is switched", ok, **mr._kw(m), expected="sink, then _change_dialect", found=[n[0] for n in order])
     raises = [(n, ctx) for n, ctx in nf.iter_nodes(m.tree) if n[0] == "raise"]
